@@ -13,11 +13,12 @@ Record CF (T : Type) := mkCF {
   cdiv : T -> T -> T;
   clt  : T -> T -> bool;      (* PartialOrd::lt  *)
   cge  : T -> T -> bool;      (* PartialOrd::ge  *)
+  ceq  : T -> T -> bool;      (* PartialEq::eq   *)
   cpowi : T -> Z -> T;        (* ConversionFactor::powi *)
   cone : T                    (* V::coefficient() = One::one() *)
 }.
 Arguments cadd {T}. Arguments csub {T}. Arguments cmul {T}. Arguments cdiv {T}.
-Arguments clt {T}. Arguments cge {T}. Arguments cpowi {T}. Arguments cone {T}.
+Arguments clt {T}. Arguments cge {T}. Arguments ceq {T}. Arguments cpowi {T}. Arguments cone {T}.
 
 Section Conv.
 Context {T : Type} (F : CF T).
@@ -42,9 +43,14 @@ Definition from_base (U : list T) (d : list Z) (coef cons v : T) : T :=
   then csub F (cmul F v (cdiv F f coef)) cons
   else csub F (cdiv F v (cdiv F coef f)) cons.
 
-(* change_base::<D, Ul, Ur, V>: v.conversion(), then for each base quantity `times Ur.powi(d) / Ul.powi(d)`, left to right. *)
+(* change_base::<D, Ul, Ur, V>: v.conversion(), then for each base quantity, left to right,
+     let r = Ur::coefficient(); let l = Ul::coefficient();
+     if r == l { v } else { v * r.powi(d) / l.powi(d) }                                    *)
+Definition change_base_step (acc : T) (p : T * T * Z) : T :=
+  let ul := fst (fst p) in let ur := snd (fst p) in let e := snd p in
+  if ceq F ur ul then acc else cdiv F (cmul F acc (cpowi F ur e)) (cpowi F ul e).
+
 Definition change_base (Ul Ur : list T) (d : list Z) (v : T) : T :=
-  fold_left (fun acc p => cdiv F (cmul F acc (cpowi F (snd (fst p)) (snd p))) (cpowi F (fst (fst p)) (snd p)))
-            (combine (combine Ul Ur) d) v.
+  fold_left change_base_step (combine (combine Ul Ur) d) v.
 
 End Conv.
